@@ -20,6 +20,16 @@ On every run of the check, `run(chk, arim, rng, quick)`
     the BRAIN probe and frame (exact rationals / integers).
 
 Every disagreement is reported with chk.violation("tie:<key>", ..., failing_input_found=False).
+
+Inputs on which the model is NOT tied (it does not describe the library there; see the final report of the tie):
+ * probe_key values that are not registered in arim._probes.probes (the registry is not in the model: KeyError vs Ok);
+ * time vectors with fewer than 2 samples given to Time.from_vect directly ([t0] gives Time(t0, nan, 1); time_of_vect = None);
+ * BRAIN arrays in which one of the six corner vectors el_x1 .. el_z2 has length 1 while the others have n >= 2 elements
+   (numpy broadcasts the squeezed scalar: accepted by _load_probe, rejected by load_probe's same_len);
+ * the `metadata` mapping of conf["probe"] is filled in place by Probe.make_matrix_probe (probe_type, numx, numy, pitch_x,
+   pitch_y - pitch_x = nan when numx = 1): a side effect on the configuration that the model does not describe; the calls are
+   recorded with the arguments as they were when the call was made, and every other entry of the configuration is checked to be
+   left untouched by the *_from_conf functions.
 """
 import copy
 import fractions
